@@ -111,6 +111,7 @@ type World struct {
 	lock       bool
 	rt         *kernel.LockRuntime
 	lockWeight int
+	heldDen    int
 	ops        []*sideOp
 	maxOps     int
 	opsActive  int
@@ -722,8 +723,11 @@ func (w *World) judge(c *call) {
 		// genuine tie inside the code under test: which groups it still records as failed is not
 		// reproducible (and not judged), so it must not reach the event log
 		errText = "error after the caller's context ended"
+		// (how many more logs its racers still reached before they noticed is part of the same tie)
+		s.Logf("%s done err=%q scts=%v", c.Party, errText, urls)
+	} else {
+		s.Logf("%s done err=%q scts=%v contacted=%d", c.Party, errText, urls, len(c.Contacted))
 	}
-	s.Logf("%s done err=%q scts=%v contacted=%d", c.Party, errText, urls, len(c.Contacted))
 	if c.Panic != "" {
 		s.Violate("panic", c.Kind, "%s panicked: %s", c.Party, c.Panic)
 		return
